@@ -182,9 +182,10 @@ class ModifiedHalfNormal(Distribution):
         return self._MHN_sample_gamma_proposal(alpha, beta, gamma, rng=rng)
 
     def _sample(self, N, rng=None):
+        # one row per component, one column per draw
         if hasattr(self.alpha, '__getitem__'):
-            return np.array([self._MHN_sample(self.alpha[i], self.beta[i], self.gamma[i], rng=rng) for i in range(N)])
+            return np.array([[self._MHN_sample(self.alpha[i], self.beta[i], self.gamma[i], rng=rng) for _ in range(N)] for i in range(len(self.alpha))])
         else:
-            return np.array([self._MHN_sample(self.alpha, self.beta, self.gamma, rng=rng) for i in range(N)])
+            return np.array([[self._MHN_sample(self.alpha, self.beta, self.gamma, rng=rng) for _ in range(N)] for _ in range(self.dim)])
 
             
